@@ -429,6 +429,7 @@ macro_rules! codelens_harness {
         #[kani::stub(crate::inflate::State::len_and_friends, stub_laf_suspends)]
         #[kani::stub(crate::inflate::writer::Writer::copy_match, stub_copy_match_unreachable)]
         #[kani::stub(crate::inflate::writer::Writer::extend_from_window, stub_efw_unreachable)]
+        #[kani::stub(<[u16]>::fill, stub_fill_u16_runs)]
         fn $name() {
             codelens_instance($sym, $r, $n_in, $x);
         }
